@@ -44,6 +44,14 @@ ShiftLaw ==
 
 TotalLaw == IF C.outcome \in {"model", "BareScriptParserError"} THEN <<"ACCEPT">> ELSE <<"REJECT", "escaped", C.outcome>>
 
+\* "accounts for every non-blank, non-comment line": a text of simple statements only (assignments, calls, labels, jumps,
+\* returns, includes) gives exactly one statement - or one entry of a merged include statement - per logical line
+AccountedLaw ==
+    LET L == LogicalLines(C.text) IN
+    IF C.outcome # "model" THEN <<"REJECT", "simple-statements-rejected", C.outcome>>
+    ELSE IF C.k # Len(L.lines) THEN <<"REJECT", "lines-not-accounted-for", <<"logical lines", Len(L.lines), "statements and include entries", C.k>>>>
+    ELSE <<"ACCEPT">>
+
 \* blanks outside quotes and brackets collapse to one blank, disappear next to "(", ")" and "," and before the ":" that ends a
 \* line; ends are stripped
 RECURSIVE NextNonBlank(_, _)
@@ -78,7 +86,7 @@ LayoutLaw ==
        ELSE <<"ACCEPT">>
 
 Law == CASE C.kind = "classes" -> ClassesLaw [] C.kind = "error" -> ErrorLaw [] C.kind = "shift" -> ShiftLaw
-         [] C.kind = "total" -> TotalLaw [] C.kind = "layout" -> LayoutLaw
+         [] C.kind = "total" -> TotalLaw [] C.kind = "layout" -> LayoutLaw [] C.kind = "accounted" -> AccountedLaw
 Init == tid \in 1..Len(Cases) /\ verdict = "open"
 Next == /\ verdict = "open" /\ verdict' = Law[1] /\ PrintT(<<"V", tid>> \o Law) /\ UNCHANGED tid
 Spec == Init /\ [][Next]_vars
